@@ -43,6 +43,7 @@ type world struct {
 	docSnap  []string // rendering before the run (immutability oracle)
 	varSnap  []string
 	pathSnap []string
+	single   bool // the scenario has one task
 }
 
 func decodeJSON(d DocSpec) (any, error) {
@@ -81,6 +82,11 @@ func maxMembers(v any) int {
 	switch v := v.(type) {
 	case map[string]any:
 		m := len(v)
+		if uniformScalars(v) {
+			// All members are the same scalar: whatever order Go iterates
+			// the map in, the execution and its result are identical.
+			m = 1
+		}
 		for _, e := range v {
 			if x := maxMembers(e); x > m {
 				m = x
@@ -124,7 +130,7 @@ func loadZone(name string) (*time.Location, error) {
 // buildWorld parses and decodes everything the scenario shares and checks
 // the generator invariants the oracles rely on.
 func buildWorld(sc *Scenario) (*world, error) {
-	w := &world{sc: sc, zones: map[string]*time.Location{}}
+	w := &world{sc: sc, zones: map[string]*time.Location{}, single: len(sc.Tasks) == 1}
 	start, err := time.Parse(time.RFC3339, sc.Start)
 	if err != nil {
 		return nil, harnessf("bad start %q: %v", sc.Start, err)
@@ -372,6 +378,14 @@ func (w *world) execOp(op OpSpec, tk *task, fresh bool) *Outcome {
 		panic(harnessf("%v", err))
 	}
 	st.anc = anc
+	if tk == nil || w.single {
+		// Exactly one execution is in flight in this process: a step that
+		// arrives with a context that is not (derived from) ours still
+		// belongs to it. Never used when tasks run in parallel (a shared
+		// variable would order them for the race detector).
+		soleOp = st
+		defer func() { soleOp = nil }()
+	}
 	if loc := w.zones[op.Zone]; loc != nil {
 		ctx = types.ContextWithTZ(ctx, loc)
 	}
@@ -796,4 +810,23 @@ func textualWild(text string) bool {
 		}
 	}
 	return strings.Contains(sb.String(), ".*")
+}
+
+// uniformScalars reports whether every member of m is the same scalar value.
+func uniformScalars(m map[string]any) bool {
+	first := true
+	var ref string
+	for _, e := range m {
+		switch e.(type) {
+		case map[string]any, []any:
+			return false
+		}
+		r := renderValue(e, false)
+		if first {
+			ref, first = r, false
+		} else if r != ref {
+			return false
+		}
+	}
+	return true
 }
